@@ -260,6 +260,11 @@ def main(argv=None) -> int:
     seed2 = ('pattern (∃ x0 . x0)', 'publish', 'pattern (phi0 -> phi0)', 'publish', 'next phase',
              'pattern (∃ x0 . x0)', 'publish', 'pattern (phi0 -> phi0)', 'publish', 'next phase')
     run_bfs(chk, rules, 5 if thorough else 4, (5, 4, 14), agg, 'both-claims-provable-seed/rules', seeds=(seed2,))
+    # a theory-less module whose single claim is provable in one step and is not an axiom: after its proof is published the
+    # memories must still agree (then save and load something)
+    one_claim = ('@claims:prop1', 'next phase', 'metavar 0', 'metavar 1', 'metavar 0', 'implies', 'implies', 'publish', 'next phase')
+    run_bfs(chk, ['prop1', 'prop2', 'publish', 'save', 'load 0', 'load 1', 'pop'], 5 if thorough else 4, (5, 4, 14), agg,
+            'one-provable-claim', seeds=(one_claim,))
     # two saved terms that PRINT alike (constraints are not printed) and are loaded one after the other: labels passed to
     # save/load are built from the printed form, as the toolkit's own callers do
     twins = ('metavar 0', 'save', 'pop', 'metavar 0 e_fresh x0', 'save', 'pop')
